@@ -29,7 +29,7 @@ SPEC = {
                    "PyMatterSim.utils.coarse_graining:gaussian_blurring", "PyMatterSim.static.vector:vector_decomposition_sq"],
     "floors_thorough": {"purity_repo_tests": 200},
     "floors": {"purity": 20000, "repeat": 300, "files": 400, "instance_reuse": 30, "instance_history": 30, "fresh_process_replay": 40,
-               "updated_in_place": 100},
+               "updated_in_place": 100, "layout_invariance": 80},
     "insitu": (),
     "rule": ("random programs (12-20 steps, a third of them repeats of an earlier step) over ~60 public entry points of static / "
              "dynamic / neighbors / utils on one shared pool: 2-D and 3-D wrapped + unwrapped trajectories (3-4 frames, 16-30 "
@@ -329,8 +329,13 @@ class Session:
             if isinstance(v, np.ndarray) and v.ndim >= 2 and v.dtype.kind in "fc":
                 u = rng.random()
                 if u < 0.3:
-                    P[k] = np.asfortranarray(v)
-                    self.layouts[k] = "fortran"
+                    if v.ndim == 3 and u < 0.2:
+                        # every per-frame slice [t] is itself Fortran-contiguous (a (T, d, N) block seen as (T, N, d))
+                        P[k] = np.transpose(np.ascontiguousarray(np.transpose(v, (0, 2, 1))), (0, 2, 1))
+                        self.layouts[k] = "fortran-per-frame"
+                    else:
+                        P[k] = np.asfortranarray(v)
+                        self.layouts[k] = "fortran"
                 elif u < 0.5:
                     big = np.zeros(v.shape[:-1] + (2 * v.shape[-1] + 1,), dtype=v.dtype)
                     big[..., 1::2] = v
@@ -1036,6 +1041,78 @@ def clone(obj, memo=None, depth=0):
     return r
 
 
+def plain_clone(obj, memo=None):
+    """deep copy in which every array is a fresh, writable, C-contiguous array of the same dtype and values (types stay what they are)"""
+    import dataclasses
+    memo = {} if memo is None else memo
+    if id(obj) in memo:
+        return memo[id(obj)]
+    if isinstance(obj, np.ndarray):
+        r = np.array(obj, order="C", copy=True)
+    elif isinstance(obj, dict):
+        r = {k: plain_clone(v, memo) for k, v in obj.items()}
+    elif isinstance(obj, list):
+        r = [plain_clone(v, memo) for v in obj]
+    elif isinstance(obj, tuple):
+        r = tuple(plain_clone(v, memo) for v in obj)
+    elif hasattr(obj, "__dataclass_fields__"):
+        r = type(obj)(**{f.name: plain_clone(getattr(obj, f.name), memo) for f in dataclasses.fields(obj)})
+    else:
+        r = obj
+    memo[id(obj)] = r
+    return r
+
+
+def close_enough(a, b, rtol=1e-9):
+    """same structure, same discrete content, floating-point content equal to rtol of its own scale (NaN = NaN)"""
+    if isinstance(a, np.ndarray) or isinstance(b, np.ndarray):
+        if not (isinstance(a, np.ndarray) and isinstance(b, np.ndarray)) or a.shape != b.shape:
+            return False
+        if a.dtype.kind in "fc" or b.dtype.kind in "fc":
+            with np.errstate(all="ignore"):
+                x, y = a.astype(complex), b.astype(complex)
+                fin = np.isfinite(x) & np.isfinite(y)
+                scale = max(float(np.abs(x[fin]).max()) if fin.any() else 0.0, 1e-300)
+                ok = (np.abs(x - y) <= rtol * scale + 1e-12) | (np.isnan(x) & np.isnan(y)) | (x == y)
+            return bool(ok.all())
+        if a.dtype.kind in "OUS" or b.dtype.kind in "OUS":
+            return bool(np.array_equal(a.astype(str), b.astype(str)))
+        return bool(np.array_equal(a, b))
+    if isinstance(a, (list, tuple)):
+        return isinstance(b, (list, tuple)) and len(a) == len(b) and all(close_enough(x, y, rtol) for x, y in zip(a, b))
+    if isinstance(a, dict):
+        return isinstance(b, dict) and a.keys() == b.keys() and all(close_enough(a[k], b[k], rtol) for k in a)
+    if isinstance(a, float) and isinstance(b, float):
+        return (a != a and b != b) or abs(a - b) <= rtol * max(abs(a), abs(b), 1e-300) + 1e-12
+    if isinstance(a, complex) or isinstance(b, complex):
+        return abs(complex(a) - complex(b)) <= rtol * max(abs(a), abs(b), 1e-300) + 1e-12
+    return type(a) is type(b) and a == b
+
+
+def layout_invariance_monitor(ctx, S, step, sd, k, res):
+    """R7 as a relation on the real code: the same values handed over as plain C-contiguous arrays must give the same result (up to
+    summation order) as in the representation the pool holds them in (Fortran order, strided views, read-only, uint32 type ids stay)"""
+    import copy
+    if "_rec" not in step:
+        return
+    S2 = copy.copy(S)
+    S2.pool = plain_clone(S.pool)
+    rng2 = np.random.default_rng(0)
+    rng2.bit_generator.state = step["_rng_state"]
+    o2 = os.path.join(sd, f"o{k}L")
+    os.makedirs(o2)
+    try:
+        step2 = step["_rec"](S2, rng2)
+        r_plain = canon(step2["thunk"](o2)[0])
+    except Exception as e:  # noqa: BLE001
+        ctx.violation(f"{step['name']}/layout_invariance/raises:{type(e).__name__}", f"{step['name']} {step['par']}: raises {type(e).__name__}: {e} on plain "
+                      f"C-contiguous copies of inputs it handled in another representation", {"step": step["name"], "par": step["par"]}, "layout_invariance")
+        return
+    ctx.check("layout_invariance", close_enough(res, r_plain), f"{step['name']}/layout_dependent",
+              lambda: f"{step['name']} {step['par']}: the result depends on the in-memory representation of the inputs (pool layouts "
+                      f"{getattr(S, 'layouts', {})}): {describe_diff(r_plain, res)}", {"step": step["name"], "par": step["par"]})
+
+
 def update_in_place(S, mode):
     """a legitimate in-place update of the caller's own objects; returns [(array, saved copy)] for undoing it.  Timesteps, particle
     numbers, shapes and object identities stay what they were -- only values change:
@@ -1172,6 +1249,8 @@ def program(ctx, rng, wd, R, pno, fresh_replay=False):
         if ok:
             results[k] = res
         u = np.random.default_rng(key + [k, 4242]).random()
+        if ok and 0.3 <= u < 0.5:
+            layout_invariance_monitor(ctx, S, step, sd, k, res)
         if ok and u < 0.3:
             updated_in_place_monitor(ctx, S, step, sd, k, "frames" if u < 0.12 else ("dilate" if u < 0.21 else "axes"))
         # instance reuse: the same method twice on ONE instance must agree with a fresh instance; and after a history of OTHER
